@@ -27,7 +27,7 @@ TEMPLATE = 'DEFAULT_RUNTIME_STATE'
 
 
 def run(ctx):
-    for fn in (r1_template, r2_fresh_state, r3_accumulators_reset, r4_namespace_cleared, r5_module_dict, r6_shared_config):
+    for fn in (r1_template, r2_fresh_state, r3_accumulators_reset, r4_namespace_cleared, r5_module_dict, r6_shared_config, r7_warning_filters_scoped):
         ctx.rep.rule(fn, ctx)
 
 
@@ -353,6 +353,14 @@ def r6_shared_config(ctx):
                         rep.ob('C11.R6', ctx.loc(f, n), ctx.src(n), False, 'the front end shares one config object between examples instead of copying its entries', anchor=q)
             if isinstance(n, ast.Call) and isinstance(n.func, ast.Attribute) and n.func.attr == 'update' and isinstance(n.func.value, ast.Attribute) and n.func.value.attr == 'config':
                 rep.ob('C11.R6', ctx.loc(f, n), ctx.src(n), True, 'config entries are copied into the example', nontrivial=False, anchor=q)
+
+
+# ---------------------------------------------------------------------------
+def r7_warning_filters_scoped(ctx):
+    """warning filters changed by one doctest must not reach the next: every exec site runs inside warnings.catch_warnings (same clause as C12.R4)"""
+    from . import c12
+    from .common import run_as
+    run_as(ctx, c12.r4_warnings, 'C12.R4', 'C11.R7')
 
 
 # ---------------------------------------------------------------------------
